@@ -11,7 +11,7 @@ git apply $D/patch.diff || { echo "PATCH DOES NOT APPLY"; exit 8; }
 ( cd /tmp && env -u CI /venv/bin/python $D/demo.py >/tmp/seed_demo_mut.out 2>&1 ); echo "demo with patch exit=$?"
 cd /verif
 for P in $PID "$@"; do
-  ./check.py $P > /tmp/seed_check_$P.out 2>&1; echo "check $P exit=$? :: $(grep -c '^VIOLATION' /tmp/seed_check_$P.out) violation line(s), $(grep -c '^UNDECIDED' /tmp/seed_check_$P.out) undecided, $(grep -c '^CHECKER-FAULT' /tmp/seed_check_$P.out) faults"
+  timeout 900 ./check.py $P > /tmp/seed_check_$P.out 2>&1; echo "check $P exit=$? :: $(grep -c '^VIOLATION' /tmp/seed_check_$P.out) violation line(s), $(grep -c '^UNDECIDED' /tmp/seed_check_$P.out) undecided, $(grep -c '^CHECKER-FAULT' /tmp/seed_check_$P.out) faults"
   grep '^VIOLATION\|^CHECKER-FAULT' /tmp/seed_check_$P.out | cut -c1-260 | head -4
   grep '^UNDECIDED' /tmp/seed_check_$P.out | cut -c1-200 | head -3
 done
